@@ -33,6 +33,8 @@ func init() {
 type c20Snap struct {
 	desc    *ref.Packet
 	padFlag bool
+	off     int // Header.PayloadOffset (deprecated, exported)
+	prof    uint16
 	marshal []byte
 	mErr    bool
 }
@@ -43,6 +45,7 @@ func c20SnapPacket(pk *rtp.Packet) c20Snap {
 	// deep copy: the snapshot must not alias the object it describes
 	s.desc = deepCopyDesc(d)
 	s.padFlag = pk.Padding
+	s.off, s.prof = pk.PayloadOffset, pk.ExtensionProfile
 	b, err := pk.Marshal()
 	s.marshal, s.mErr = append([]byte{}, b...), err != nil
 	return s
@@ -52,6 +55,7 @@ func c20SnapHeader(h *rtp.Header) c20Snap {
 	s := c20Snap{}
 	s.desc = deepCopyDesc(gen.FromLibHeader(h))
 	s.padFlag = h.Padding
+	s.off, s.prof = h.PayloadOffset, h.ExtensionProfile
 	b, err := h.Marshal()
 	s.marshal, s.mErr = append([]byte{}, b...), err != nil
 	return s
@@ -74,6 +78,12 @@ func c20Same(a, b c20Snap) string {
 	}
 	if a.padFlag != b.padFlag {
 		return "padding flag"
+	}
+	if a.off != b.off {
+		return "PayloadOffset"
+	}
+	if a.prof != b.prof {
+		return "ExtensionProfile"
 	}
 	if a.mErr != b.mErr {
 		return "Marshal error-ness"
@@ -267,6 +277,9 @@ func c20Prepare(r *fw.Rand, p *ref.Packet) (*rtp.Packet, error) {
 	if pk.Extension && len(pk.Extensions) > 0 && r.Chance(1, 10) {
 		// the exported X flag switched off while the elements stay in the list (switched on again by some of the mutations)
 		pk.Extension = false
+	}
+	if r.Chance(1, 4) {
+		pk.PayloadOffset = r.Pick(-1, 1, 12, 65536, r.Intn(4096)) // deprecated, exported, a header field like any other
 	}
 	if r.Chance(1, 3) {
 		// extension values whose backing arrays have spare capacity
